@@ -71,6 +71,7 @@ func checkC18(c *Ctx) {
 	r.Rule("C18.W3", "failures print nothing to stdout and end with panic or a non-zero exit; no error result is discarded", 4)
 	r.Rule("C18.W4", "a file write is followed by a checked Sync", 1)
 	r.Rule("C18.W5", "the texts handed to the library are the contents of the named files, unchanged", 3)
+	r.Rule("C18.W7", "a path that reports an error on stderr ends with a non-zero status", 1)
 	w5seen := map[string]bool{}
 
 	// ---- W1 static part: flags of every os.OpenFile in cmd
@@ -232,6 +233,7 @@ func checkC18(c *Ctx) {
 			}
 		}
 		w2ok, w3ok, w4ok, w1ok := true, true, true, true
+		w7paths := 0
 		libPaths, failPaths, writePaths := 0, 0, 0
 		emittingPaths := 0
 		for i := range outs {
@@ -377,6 +379,24 @@ func checkC18(c *Ctx) {
 			if hasLib {
 				libPaths++
 			}
+			// W7: a path that complains on stderr (wrong usage, unknown command) is a failure: non-zero status
+			stderrPrints := 0
+			for _, t := range o.Trace {
+				if t.Kind == "print" && strings.HasPrefix(t.Label, "stderr:") {
+					stderrPrints++
+				}
+			}
+			if stderrPrints > 0 && failed == "" {
+				w7paths++
+				okExit := o.Exit == "panic" || (o.Exit == "exit" && o.ExitCode.Kind == avConst && o.ExitCode.Const.ExactString() != "0")
+				if !okExit {
+					code := ""
+					if o.Exit == "exit" && o.ExitCode.Kind == avConst {
+						code = "(" + o.ExitCode.Const.ExactString() + ")"
+					}
+					bad("C18.W7", "exit-after-usage-error", p.Pos(en.Pos()), fmt.Sprintf("the command reports a usage error on stderr and then ends with %s%s: scripts see success; path [%s]", o.Exit, code, o.TraceString()))
+				}
+			}
 			if failed == "" && o.Exit == "panic" && o.PanicAt != nil {
 				// the library panicked: nothing must have been printed before
 				if stdoutPrints > 0 {
@@ -411,6 +431,9 @@ func checkC18(c *Ctx) {
 					emittingPaths++
 				}
 			}
+		}
+		if w7paths > 0 && !seen["C18.W7"+key+"#exit-after-usage-error"] {
+			r.OK("C18.W7", key+"#usage-errors", p.Pos(en.Pos()), fmt.Sprintf("%d path(s) write to stderr: all end with a non-zero status or a panic", w7paths))
 		}
 		if libPaths > 0 {
 			if w2ok && producesText(en) && emittingPaths == 0 && en.Name() != "main" {
